@@ -180,10 +180,10 @@ class HedGroup:
             else:
                 group_list.append((child, child._sorted(update_self)))
 
-        tag_list.sort(key=lambda x: str(x[0]))
+        tag_list.sort(key=lambda x: (str(x[0]).casefold(), str(x[0])))  # equal tags are adjacent whatever their case
         # Order groups by their sorted contents first, not only by their text as written, so that equal groups
         # end up adjacent whatever the order of their members.
-        group_list.sort(key=lambda x: (self._sorted_key(x[1]), str(x[0])))
+        group_list.sort(key=lambda x: (self._sorted_key(x[1]).casefold(), str(x[0])))
         output_list = tag_list + group_list
         if update_self:
             self.children = [x[0] for x in output_list]
